@@ -110,7 +110,13 @@ func (k *c37) check(o *stepObs) {
 			x.label("create:parallel-connection")
 		}
 		for _, pm := range post.edges {
-			if pe := post.els[pm]; pm != nm && groupOf(pe.absID) == groupOf(ne.absID) && pe.index > ne.index {
+			pe := post.els[pm]
+			if old, ok := pre.els[pm]; ok && !strings.HasPrefix(pm, "id:") && old.edge && old.index != pe.index && groupOf(pe.absID) == groupOf(ne.absID) {
+				x.fail(o.step, "create-edge:existing-connection-renumbered", "%s: the existing parallel connection %s had index %d and has %d now (returned key %q)\n%s",
+					c, pm, old.index, pe.index, o.newKey, o.ctx())
+				return
+			}
+			if pm != nm && groupOf(pe.absID) == groupOf(ne.absID) && pe.index > ne.index {
 				x.fail(o.step, "create-edge:existing-connection-renumbered", "%s: the new connection got index %d, the existing parallel connection %s now has index %d (returned key %q)\n%s",
 					c, ne.index, pm, pe.index, o.newKey, o.ctx())
 				return
